@@ -10,9 +10,15 @@ A case (JSON):
 Action DSL:  ["spawnChild", key, eid|None, sysId|None] ["spawn", key, eid|None, sysId|None, blocking]
              ["sendTo", target, n, delay|None, sendId|None] ["sendParent", n, delay|None, sendId|None]
              ["forwardTo", target] ["escalate"] ["cancel", sendId] ["stopChild", target]
-Messages are the event types "M<n>"; nothing reacts to a message (it is only recorded), a command is
-an event {"type": name, "to": <harness uid of the interpreter object>, "k": serial} guarded by `forMe`, so a
-FORWARDED command is inert too (also when it reaches another object carrying the same id string, or comes back).
+             ["raise", n, delay, sendId|None]   (delayed self-send; monitor only: the actor model has no `raise`)
+Messages are the event types "M<n>"; a command is an event {"type": name, "to": <harness uid of the interpreter
+object>, "k": serial} guarded by `forMe`, so a FORWARDED command is inert too (also when it reaches another object
+carrying the same id string, or comes back).  A message is only recorded, unless the case carries
+  react       : {kind: {"M<n>": [action,...]}}   the machine of that kind REACTS to the message with the action list
+  react_limit : int                            every actor reacts at most that many times (guard `reactOk`)
+(c15react.py): then the life of a send id runs THROUGH deliveries (a send re-armed from inside the delivery it caused).
+Every send, cancel, receipt, reaction and stop notification takes a number from one global sequence (`World.seq`) at
+the moment it happens; the rules about cancel / supersede / stop are stated on that order and on the virtual clock.
 
 Observation uses the public API only: every machine's root entry action `hello(interp, ...)` registers
 the interpreter object and installs a Recorder plugin on it (`on_event_received`, `on_interpreter_stop`)
@@ -84,7 +90,7 @@ class World:
         self.attempts = []      # sends / forwards / stopChilds observed at the moment they are issued
         self.last_attempt = {}  # sender uid -> attempt awaiting its event callable
         self.pending = []       # delayed sends not yet due
-        self.cancels = []       # (time, sender uid, send id)
+        self.cancels = []       # {"seq", "time", "sender", "sid", "op"}: every `cancel` at the moment it is executed
         self.must = {}          # (uid, serial) -> count that MUST have been received by the end of the op
         self.may = {}           # (uid, serial) -> count that MAY have been received (recipient stopped meanwhile)
         self.problems = []
@@ -94,11 +100,25 @@ class World:
         self.lazy_victims = set()   # children stopped (by stopChild / a parent's stop) before their thread had started them
         self.action_errors = []
         self.expected_warns = []
+        self.seq = 0            # one global order of sends, cancels, receipts, reactions and stop notifications
+        self.rlog = []          # receipts: {"u", "ser", "seq", "time"}
+        self.stop_seq = {}      # uid -> seq of the FIRST stop notification
+        self.reacts = []        # reactions run: {"op", "time", "seq", "actor", "kind", "msg"}
+        self.static_warns = []  # warnings a reaction is known to cause without passing an event callable (sendParent at the root)
+        self.opt_warns = []     # warnings that may or may not be logged (same-instant races)
 
     # ---- bookkeeping
     def next_serial(self):
         self.serial += 1
         return self.serial
+
+    def next_seq(self):
+        self.seq += 1
+        return self.seq
+
+    def received_before(self, ser, seq):
+        """was the event with serial `ser` already processed by somebody when the global order stood at `seq`?"""
+        return ser is not None and any(r["ser"] == ser and r["seq"] < seq for r in self.rlog)
 
     def problem(self, kind, detail, **kw):
         d = {"kind": kind, "step": self.op, "detail": detail}
@@ -173,7 +193,7 @@ class World:
             ek, eobj, flags = self.expect_target(sender, spec)
         else:
             ek, eobj, flags = ("actor", target, {}) if target is not False else ("none", None, {})
-        att = {"n": len(self.attempts), "op": self.op, "time": self.clock(), "sender": self.uid_of(sender), "kind": kind,
+        att = {"n": len(self.attempts), "seq": self.next_seq(), "op": self.op, "time": self.clock(), "sender": self.uid_of(sender), "kind": kind,
                "spec": spec, "expect": ek, "target": self.uid_of(eobj) if eobj is not None else None, "tobj": eobj,
                "flags": flags, "delay": delay or 0, "sid": sid or None, "serial": None,
                "target_status": eobj.status if eobj is not None else None}
@@ -198,17 +218,40 @@ class RecPlugin(PluginBase):
         if t.startswith("xstate.error.actor."):
             t = "ESC<" + t[len("xstate.error.actor."):] + ">"
         self.w.logs[self.u].append((t, k))
+        self.w.rlog.append({"u": self.u, "ser": k, "seq": self.w.next_seq(), "time": self.w.clock()})
         if self.u in self.w.stops:
             self.w.after_stop.append((interpreter.id, t))
 
     def on_interpreter_stop(self, interpreter):
         self.w.stops.setdefault(self.u, (self.w.op, self.w.clock()))
+        self.w.stop_seq.setdefault(self.u, self.w.next_seq())
 
     def on_action_error(self, interpreter, action, error):
         self.w.action_errors.append((interpreter.id, action.type, f"{type(error).__name__}: {error}"[:200]))
 
 
-def make_logic(world):
+def make_logic(world, case=None):
+    react = (case or {}).get("react") or {}
+    limit = int((case or {}).get("react_limit", 8))
+
+    def react_ok(ctx, ev):
+        # every actor reacts a bounded number of times: a re-arming heartbeat ends by itself
+        return ctx.get("nreact", 0) < limit
+
+    def note_react(interp, ctx, ev, ad):
+        ctx["nreact"] = ctx.get("nreact", 0) + 1
+        acts = (react.get(interp.machine.id) or {}).get(ev.type) or []
+        world.reacts.append({"op": world.op, "time": world.clock(), "seq": world.next_seq(), "actor": interp.id,
+                             "uid": world.uid_of(interp), "kind": interp.machine.id, "msg": ev.type})
+        if interp.parent is None:
+            # sendParent / escalate at the root never reach their event callable: the warning is expected statically
+            world.static_warns.extend("noparent" for a in acts if a[0] in ("sendParent", "escalate"))
+
+    def note_cancel(interp, ctx, ev, ad):
+        # runs immediately before the `cancel` built-in of the same action list: the moment the cancel is executed
+        world.cancels.append({"seq": world.next_seq(), "time": world.clock(), "sender": world.uid_of(interp),
+                              "sid": (ad.params or {}).get("sid"), "op": world.op})
+
     def hello(interp, ctx, ev, ad):
         if id(interp) in world.uid:
             return
@@ -228,8 +271,8 @@ def make_logic(world):
         ctx.setdefault("seen", []).append((getattr(ev, "payload", None) or {}).get("k"))
 
     lg = MachineLogic()
-    lg.actions = {"hello": hello, "mark": mark}
-    lg.guards = {"forMe": for_me}
+    lg.actions = {"hello": hello, "mark": mark, "noteReact": note_react, "noteCancel": note_cancel}
+    lg.guards = {"forMe": for_me, "reactOk": react_ok}
     lg.services = {}
     return lg
 
@@ -267,6 +310,14 @@ def _action(a, world, idx=0):
             att["aidx"] = idx
             return {"type": f"M{_a[1]}", "k": att["serial"]}
         return {"type": "sendParent", "params": {"event": ev_fn2, "delay": a[2], "id": a[3]}}
+    if k == "raise":
+        def ev_fn4(args, _a=a):
+            snd = _sender(world, args)
+            att = world.new_attempt(snd, "raise", "<self>", _a[2], _a[3], target=snd)
+            att["serial"] = world.next_serial()
+            att["aidx"] = idx
+            return {"type": f"M{_a[1]}", "k": att["serial"]}
+        return {"type": "raise", "params": {"event": ev_fn4, "delay": a[2], "id": a[3]}}
     if k == "forwardTo":
         def to_fn3(args, _a=a):
             att = world.new_attempt(_sender(world, args), "forwardTo", _a[1])
@@ -285,8 +336,20 @@ def _action(a, world, idx=0):
     raise ValueError(a)
 
 
+def _actions(acts, world):
+    """an action list of the DSL -> action definitions; every `cancel` is preceded by the user action that records it"""
+    out = []
+    for j, a in enumerate(acts):
+        if a[0] == "cancel":
+            out.append({"type": "noteCancel", "params": {"sid": a[1]}})
+        out.append(_action(a, world, j))
+    return out
+
+
 def machine_config(mid, case, world):
-    on = {name: {"guard": "forMe", "actions": ["mark"] + [_action(a, world, j) for j, a in enumerate(acts)]} for name, acts in case["cmds"].items()}
+    on = {name: {"guard": "forMe", "actions": ["mark"] + _actions(acts, world)} for name, acts in case["cmds"].items()}
+    for msg, acts in ((case.get("react") or {}).get(mid) or {}).items():
+        on[msg] = {"guard": "reactOk", "actions": ["noteReact"] + _actions(acts, world)}
     cfg = {"id": mid, "initial": "idle", "entry": ["hello"], "on": on,
            "states": {"idle": {"on": {"GOINV": {"guard": "forMe", "target": "inv"}}},
                       "inv": {"on": {"LEAVE": {"guard": "forMe", "target": "idle"}}}}}
@@ -297,7 +360,7 @@ def machine_config(mid, case, world):
 
 
 def build(case, world):
-    lg = make_logic(world)
+    lg = make_logic(world, case)
     nodes = {}
     for k in case["kinds"]:
         lg.services[k] = None
@@ -387,8 +450,6 @@ def pre_op(world, case, op):
                     info["expect_new"].append((a[0], key, a[2] or None, a[3] or None))
                 elif a[0] == "escalate":
                     info["escalates"] += 1
-                elif a[0] == "cancel":
-                    world.cancels.append((world.clock(), world.uid_of(tgt), a[1], world.op, aidx))
     return info
 
 
@@ -455,19 +516,32 @@ def post_op(world, case, info, warns):
             still.append(att)
             continue
         su = att["sender"]
-        cancelled = any(t <= att["due"] and s == su and sid == att["sid"] and att["sid"] is not None
-                        and (o > att["op"] or (o == att["op"] and ai > att.get("aidx", 0)))
-                        for (t, s, sid, o, ai) in world.cancels)
-        # a later send under the same id supersedes this one iff it is itself addressed by the documented rules: a
-        # send that is dropped (unresolved / ambiguous) schedules nothing and supersedes nothing. (While F53 / F54
-        # were open, a later send whose address the library resolved differently was left unjudged here.)
-        superseded = any(b is not att and b["sender"] == su and b["sid"] == att["sid"] and att["sid"] is not None and b["delay"]
-                         and b["n"] > att["n"] and b["time"] <= att["due"] and b["expect"] in ("actor", "stale")
-                         for b in world.attempts)
-        sender_stopped = su in world.stops and world.stops[su][1] <= att["due"]
-        if cancelled or superseded or sender_stopped:
+        # what can take a pending send away: a `cancel` of its id executed by its sender, a later delayed send of the same
+        # sender under the same id (only if that one is itself addressed by the documented rules: a send that is dropped -
+        # unresolved / ambiguous - schedules nothing and supersedes nothing), the stop of its sender.  Each is an event in
+        # the global order: it acts on the send iff it comes after the send was issued and BEFORE the send's due time.  At the
+        # due instant itself the send is out of reach once it has been delivered (a cancel / re-arm under the same id
+        # executed INSIDE the delivery it caused acts on nothing, resp. only on itself); if it has not been delivered yet,
+        # the timer and the killer race and either outcome is legal.
+        killers = []
+        if att["sid"] is not None:
+            killers += [("cancelled", c["seq"], c["time"]) for c in world.cancels
+                        if c["sender"] == su and c["sid"] == att["sid"] and c["seq"] > att["seq"]]
+            killers += [("superseded", b["seq"], b["time"]) for b in world.attempts
+                        if b is not att and b["sender"] == su and b["sid"] == att["sid"] and b["delay"] and b["seq"] > att["seq"]
+                        and b["kind"] != "stopChild" and b["expect"] in ("actor", "stale")]
+        if su in world.stops:
+            killers.append(("sender-stopped", world.stop_seq.get(su, 0), world.stops[su][1]))
+        why = next((k for k, _q, t in killers if t < att["due"]), None)
+        race = why is None and any(t == att["due"] and not world.received_before(att["serial"], q) for _k, q, t in killers)
+        if why:
             att["forbid"] = True
-            att["why"] = "cancelled" if cancelled else "superseded" if superseded else "sender-stopped"
+            att["why"] = why
+        elif race:
+            att["race"] = True
+            if att["target"] is not None and att["serial"] is not None:
+                world.may[(att["target"], att["serial"])] = world.may.get((att["target"], att["serial"]), 0) + 1
+            world.opt_warns.append("notrunning")
         elif att.get("stale"):
             exp_warn.append("notrunning")
         else:
@@ -648,6 +722,19 @@ def post_op(world, case, info, warns):
     del world.action_errors[:]
     # ---- warnings
     got_w = sorted(w for w in warns if w in ("unresolved", "ambiguous", "noparent", "notrunning"))
+    exp_warn += world.static_warns
+    del world.static_warns[:]
+    extra = list(got_w)
+    for w in exp_warn:
+        if w in extra:
+            extra.remove(w)
+    opt = list(world.opt_warns)
+    del world.opt_warns[:]
+    for w in list(extra):
+        if w in opt:                    # a warning that a same-instant race may or may not produce
+            opt.remove(w)
+            extra.remove(w)
+            exp_warn.append(w)
     if sorted(exp_warn) != got_w:
         world.problem("warnings", f"expected warnings {sorted(exp_warn)}, the library logged {got_w}",
                       expected=sorted(exp_warn), got=got_w,
@@ -702,6 +789,7 @@ def _expect_delivery(world, att, exp_warn, now, at_due=False):
             return
         if stopped_at:
             world.may[(u, ser)] = world.may.get((u, ser), 0) + 1
+            world.opt_warns.append("notrunning")
             return
         world.must[(u, ser)] = world.must.get((u, ser), 0) + 1
         return
@@ -729,7 +817,7 @@ def final_checks(world):
         last = {}
         for t, ser in log:
             a = by_serial.get(ser)
-            if a is None:
+            if a is None or a["target"] != u:       # (a forwarded copy of the event travels under the same serial)
                 continue
             s = a["sender"]
             if s in last and last[s] > ser:
@@ -755,9 +843,29 @@ async def _settle(world, rounds=3):
     raise impl.Hang()
 
 
+def _fates(world):
+    """what became of the delayed sends that carry an id (coverage of the id lifecycle)"""
+    out = {}
+    for a in world.attempts:
+        if a["kind"] == "stopChild" or not a["delay"] or a["sid"] is None or a.get("due") is None:
+            continue
+        k = a.get("why") or ("race" if a.get("race") else "delivered" if a["serial"] is not None and world.received_before(a["serial"], world.seq + 1) else "pending-or-dropped")
+        out[k] = out.get(k, 0) + 1
+        if any(r["time"] == a["time"] and r["uid"] == a["sender"] for r in world.reacts) and any(
+                b is not a and b["sender"] == a["sender"] and b["sid"] == a["sid"] and b.get("due") == a["time"] for b in world.attempts):
+            out["rearmed-inside-own-delivery"] = out.get("rearmed-inside-own-delivery", 0) + 1
+    return out
+
+
 def _result(world, out):
     final_checks(world)
-    return {"obs": out, "problems": world.problems, "n_actors": len(world.objs), "n_sends": len(world.attempts)}
+    # two delayed sends that really fire at one instant (a send taken away before its due time fires nothing)
+    dues = [a["due"] for a in world.attempts if a.get("due") is not None and a["kind"] != "stopChild"
+            and a.get("why") not in ("cancelled", "superseded", "sender-stopped")]
+    return {"obs": out, "problems": world.problems, "n_actors": len(world.objs), "n_sends": len(world.attempts),
+            "reacts": [{k: r[k] for k in ("op", "time", "seq", "actor", "kind", "msg")} for r in world.reacts],
+            "n_cancels": len(world.cancels), "same_instant": len(dues) != len(set(dues)),
+            "fates": _fates(world)}
 
 
 async def _run_async(case, world, wh):
